@@ -288,7 +288,7 @@ def run(run: Run) -> int:
     tl = nc.table_lines(pt.elements, base.me_exact())
     pools = nc.Pools(pt.elements)
     stage_conversions(run, pt, orc, quick)
-    n = 1200 if quick else 40000
+    n = 1200 if quick else 100000
     cases = [gen_case(run.rng, pools) for _ in range(n)]
     for i in range(0, n, 2000):
         run_cases(run, pt, tl, cases[i:i + 2000])
